@@ -14,6 +14,7 @@ TRAIT_MEMBERS = '''
     spec fn wbytes() -> nat;          // counter width in bytes
     spec fn big_endian() -> bool;
     spec fn backend_val(v: Self::Backend) -> int;
+    proof fn lemma_backend_val(v: Self::Backend) ensures Self::backend_val(v) == <Self::Backend as StreamCipherCounter>::cval(v);
     spec fn wf(cn: &Self::CtrNonce) -> bool;
     proof fn lemma_pos_range(cn: &Self::CtrNonce) ensures 0 <= Self::pos(cn) < pow256(Self::wbytes());
 '''
@@ -57,6 +58,7 @@ def flavor_members(cs, ty, be):
     open spec fn wbytes() -> nat { %(cs)d }
     open spec fn big_endian() -> bool { %(be)s }
     open spec fn backend_val(v: %(ty)s) -> int { v as int }
+    proof fn lemma_backend_val(v: %(ty)s) {}
     open spec fn wf(cn: &Self::CtrNonce) -> bool { true }
     proof fn lemma_pos_range(cn: &Self::CtrNonce) { pow256_values(); }
 ''' % {'cs': cs, 'idx': idx, 'enc': enc, 'be': 'true' if be else 'false', 'ty': ty}
@@ -256,6 +258,7 @@ def core_mod():
 ''' % (fc, fc)})}),
         Sel('impl StreamCipherSeekCore for CtrCore', members='''
     open spec fn counter_val(c: F::Backend) -> int { %(f)s::backend_val(c) }
+    proof fn lemma_counter_val(c: F::Backend) { %(f)s::lemma_backend_val(c); }
     open spec fn block_pos(&self) -> int { %(f)s::pos(&self.ctr_nonce) }
     open spec fn pos_modulus() -> int { pow256(%(f)s::wbytes()) }
     proof fn lemma_pos_coherent(&self) {
